@@ -1,4 +1,3 @@
-(* Write / read round trip (C01), file length (C03), truncation safety (C19) — task R. *)
 From Coq Require Import String.
 From Coq Require Import ZArith List Bool Lia ZifyBool.
 From LasV Require Import Lib.Base Lib.BaseFacts Lib.Layout Proofs.LayoutProofs Gen.GenHeaderLayout Gen.GenFormatBits Gen.GenDims
@@ -6,6 +5,8 @@ From LasV Require Import Lib.Base Lib.BaseFacts Lib.Layout Proofs.LayoutProofs G
 Import ListNotations.
 Open Scope list_scope.
 Open Scope Z_scope.
+
+(* Write / read round trip (C01), file length (C03), truncation safety (C19) — task R. *)
 
 (* ------------------------------------------------------------------------------------ *)
 (* the decoder, split into the part that does not look at EVLRs and the EVLR part        *)
